@@ -135,6 +135,15 @@ Proof. vm_compute. reflexivity. Qed.
 Theorem C08_findings_refuted : check table = false.
 Proof. vm_compute. reflexivity. Qed.
 
+(* package-level sync.Pool variables hand objects from one connection to the next.  The two that
+   exist are modelled: bufPool (model/Pool.v) and udpBufPool (model/UdpPool.v) hold byte arrays whose
+   old contents no view or packet can reach.  A pool the proofs do not know about makes this fail
+   (and the engine reports it as C08:shared:<pkg>.<var>). *)
+Definition known_pools : list string := [ "layer4.bufPool"; "layer4.udpBufPool" ].
+
+Theorem C08_shared_pools_known : shared_pools = known_pools.
+Proof. vm_compute. reflexivity. Qed.
+
 (* fields the translator marks read-only after provisioning are only read by per-connection code *)
 Theorem C08_readonly_after_provision : forallb (only_reads table) readonly_after_provision = true.
 Proof. vm_compute. reflexivity. Qed.
@@ -165,5 +174,6 @@ Print Assumptions C08_discipline_complete.
 Print Assumptions C08_discipline_holds.
 Print Assumptions C08_exemptions_exact.
 Print Assumptions C08_findings_refuted.
+Print Assumptions C08_shared_pools_known.
 Print Assumptions C08_readonly_after_provision.
 Print Assumptions C08_example_atomic_locations.
